@@ -18,8 +18,8 @@
 (* (Dispatch, RecFallback), that Dispatch is total, and prints every case. *)
 (***************************************************************************)
 EXTENDS C04_Dispatch, Json
-CONSTANT Tier
-VARIABLES obj, impl, phase
+CONSTANT Tier, EAFP     \* EAFP: negative control - the dispatcher with the design error of C04_Dispatch.RunImpl
+VARIABLES obj, impl, phase, oc
 
 \* ------------------------------------------------------------------ names
 PatternNames == {
@@ -87,8 +87,32 @@ ForeignHandlers == {"map_constant", "map_numpy_array", "map_list", "map_tuple", 
 UserObj(base, chain, first) == [ty |-> "user", base |-> base, chain |-> chain, first |-> first]
 ForeignObj(kind, reg) == [ty |-> "foreign", kind |-> kind, reg |-> reg]
 
+\* ------------------------------------------------------------------ what the handlers do (round 5)
+\* Every case carries an outcome assignment (C04_Dispatch: who / exc).  All cases exist with
+\* "every handler returns"; on the core hierarchies (chains named by position, decorated, no own
+\* name - so that the resolution order has as many distinct handler names as classes - and the
+\* mix-in hierarchies above such chains) TLC also picks one handler on the resolution order (or
+\* the overridden hook, or all of them) and the exception class it raises; the thorough tier adds
+\* "all handlers raise" (the two classes a lookup uses itself) on every chain named by position.
+Named(o)     == o.first = "mixin" \/ (o.first = "patterns" /\ o.chain[1].name = NameAt(1))
+PlainFrom(o, i0) == \A i \in i0..Len(o.chain) : o.chain[i].deco /\ o.chain[i].own = ""
+OcCore(o)    == (o.first = "patterns" /\ o.chain[1].name = NameAt(1) /\ PlainFrom(o, 1))
+                \/ (o.first = "mixin" /\ PlainFrom(o, 2) /\ (Tier = "quick" => o.base # "Variable"))
+\* exception classes for "one handler raises": the quick tier takes a class the dispatcher's
+\* attribute lookup uses, one a cache lookup uses and the unrelated user class
+OneExcs == IF Tier = "quick" THEN {"AttributeError", "KeyError", "UserError"} ELSE Excs
+OcChoices(o, I) ==
+    {OcAll}
+    \cup (IF OcCore(o) THEN { [who |-> "*", exc |-> e] : e \in Excs }
+                            \cup { [who |-> w, exc |-> e] : w \in I \cup {HookName}, e \in OneExcs }
+          ELSE {})
+    \cup (IF Tier # "quick" /\ Named(o)
+          THEN { [who |-> "*", exc |-> e] : e \in {"AttributeError", "KeyError"} } ELSE {})
+ForeignOcChoices(I) == {OcAll} \cup { [who |-> "*", exc |-> e] : e \in Excs }
+                               \cup { [who |-> w, exc |-> e] : w \in I, e \in OneExcs }
+
 Init ==
-    \/ /\ phase = "build" /\ impl = {}
+    \/ /\ phase = "build" /\ impl = {} /\ oc = OcAll
        /\ obj \in { UserObj(b, << >>, f) : b \in Bases, f \in {"patterns"} }
                   \cup { UserObj("Sum", << >>, "alphabet"), UserObj("Expression", << >>, "alphabet") }
                   \cup { UserObj(b, << >>, "mixin") : b \in {"Expression", "Variable", "Sum"} }
@@ -96,6 +120,7 @@ Init ==
        /\ obj \in { ForeignObj(k, r) : k \in ForeignKinds, r \in BOOLEAN }
        /\ obj.reg => Category(obj.kind) = "other-number"
        /\ impl \in {{}, ForeignHandlers, {"map_multivector"}, {"map_constant", "map_tuple"}}
+       /\ oc \in ForeignOcChoices(impl)
 
 Extend ==
     /\ phase = "build" /\ Len(obj.chain) < MaxChain
@@ -107,10 +132,10 @@ Extend ==
           \* a decorated mix-in brings a field-less __init__: the class below it must be decorated
           /\ (Len(obj.chain) = 1 /\ obj.chain[1].mix /\ obj.chain[1].deco) => c.deco
           /\ obj' = [obj EXCEPT !.chain = Append(@, c)]
-    /\ UNCHANGED << impl, phase >>
+    /\ UNCHANGED << impl, phase, oc >>
 Finish ==
     /\ phase = "build" /\ Len(obj.chain) >= 1 /\ ~obj.chain[Len(obj.chain)].mix
-    /\ \E H \in SUBSET Universe(obj) : impl' = H
+    /\ \E H \in SUBSET Universe(obj) : impl' = H /\ oc' \in OcChoices(obj, H)
     /\ phase' = "done" /\ UNCHANGED obj
 Next == Extend \/ Finish
 
@@ -133,6 +158,17 @@ DispatchSane ==
         /\ d # "unsupported" =>
               \E k \in 1..Len(nm) : nm[k] = d /\ d \in impl /\ \A j \in 1..(k - 1) : nm[j] \notin impl
         /\ \A k \in 1..Len(L) : L[k].deco /\ L[k].own = "" => EffName(L, k) = DerivedHandler(L[k].name)
+\* what the handlers do: the run of the code's algorithm invokes exactly the handler the statement
+\* names, once, and ends as that handler ends - whatever it raises.  With EAFP = TRUE (lookup and
+\* call under one "except AttributeError") TLC must find this violated (C04_DGen_neg_eafp.cfg).
+OutcomeRefinesMeaning ==
+    Complete =>
+        IF obj.ty = "user"
+        THEN LET L == Lineage(obj) IN
+             /\ RunImpl(L, impl, oc, EAFP) = Applied(Dispatch(L, impl), oc)
+             /\ FallbackRunImpl(L, impl, oc) = Applied(RecFallback(L, impl), oc)
+        ELSE ForeignRunImpl(obj.kind, obj.reg, impl, oc, EAFP)
+                 = Applied(DispatchForeign(obj.kind, obj.reg, impl), oc)
 ForeignSane ==
     (Complete /\ obj.ty = "foreign") =>
         DispatchForeign(obj.kind, obj.reg, impl) \in ForeignHandlers \cup {"error", "SKIP"}
@@ -146,6 +182,8 @@ ASSUME DerivedHandler(<< "A" >>) = "map_a"
 ASSUME DerivedHandler(B_CSE.name) = "map_common_subexpression"
 ASSUME DerivedHandler(B_AlgebraicLeaf.name) = "map_algebraic_leaf"
 
+\* the assignment as a table handler name -> outcome, for the driver (which only looks it up)
+OcTable == [h \in impl \cup {HookName} |-> OcOf(oc, h)]
 Emit == Complete =>
     PrintT(ToJson(
       IF obj.ty = "user"
@@ -153,8 +191,9 @@ Emit == Complete =>
             chain |-> [i \in 1..Len(obj.chain) |->
                           [name |-> obj.chain[i].name, deco |-> obj.chain[i].deco,
                            own |-> obj.chain[i].own, mix |-> obj.chain[i].mix]],
-            impl |-> impl]
-      ELSE [ty |-> "foreign", kind |-> obj.kind, reg |-> obj.reg, impl |-> impl]))
+            impl |-> impl, oc |-> oc, ocs |-> OcTable]
+      ELSE [ty |-> "foreign", kind |-> obj.kind, reg |-> obj.reg, impl |-> impl,
+            oc |-> oc, ocs |-> OcTable]))
 
 ASSUME PrintT(ToJson([runs |-> Runs]))
 =============================================================================
